@@ -1,6 +1,7 @@
 package proto
 
 import (
+	"errors"
 	"fmt"
 	"net"
 	"sort"
@@ -34,6 +35,9 @@ type rtSock struct {
 	closed  bool
 	// a rule-following gateway for tunnelling requests (nil: requests are only recorded)
 	gw *rtGateway
+	// disconnect requests written (each write takes discDelay, as a write to a real socket takes time)
+	dreqs     int
+	discDelay time.Duration
 }
 
 // rtGateway: accepts the expected sequence number (bus), acknowledges it, acknowledges a repetition
@@ -54,6 +58,18 @@ func (s *rtSock) Send(p knxnet.ServicePackable) error {
 	switch f := p.(type) {
 	case *knxnet.RoutingInd:
 		s.add(fmt.Sprintf("tx %d %d", s.us(), pidOf(f.Payload)))
+	case *knxnet.DiscReq:
+		s.mu.Lock()
+		closed := s.closed
+		if !closed {
+			s.dreqs++
+		}
+		d := s.discDelay
+		s.mu.Unlock()
+		if closed {
+			return errors.New("socket closed")
+		}
+		time.Sleep(d)
 	case *knxnet.ConnReq:
 		go func() {
 			defer func() { recover() }()
@@ -418,4 +434,121 @@ func runTunnelRT(t *testing.T, line string) string {
 	sort.Ints(ok)
 	return fmt.Sprintf("bus=%s ok=%s failed=%d seen=%s%s", strings.ReplaceAll(fmt.Sprint(sock.gw.bus), " ", ","),
 		strings.ReplaceAll(fmt.Sprint(ok), " ", ","), failed, strings.Join(sock.gw.seen, ","), stuck)
+}
+
+// runCloseRT: "crt <closers> <senders> <reader> <traffic>": 1..4 goroutines call Close on one tunnel at
+// the same moment (real goroutines, real time; the socket stays usable), optionally while Sends are
+// pending, the gateway is delivering telegrams and an application reads Inbound.
+// Trace: dreq=<disconnect requests written> returned=<closers back within 3 s>/<closers>
+// inbound=closed|open send=err|ok|blocked second=ok|stuck
+func runCloseRT(t *testing.T, line string) string {
+	f := strings.Fields(line)
+	if len(f) != 5 {
+		return "bad-script"
+	}
+	closers, _ := strconv.Atoi(f[1])
+	senders, _ := strconv.Atoi(f[2])
+	reader := f[3] == "1"
+	traffic := f[4] == "1"
+	sock := &rtSock{start: time.Now(), inbound: make(chan knxnet.Service), gw: &rtGateway{}, discDelay: 3 * time.Millisecond}
+	tun, err := knx.VerifNewTunnel(sock, knxnet.TunnelLayerData, knx.TunnelConfig{
+		ResendInterval: 20 * time.Millisecond, ResponseTimeout: 100 * time.Millisecond, HeartbeatInterval: time.Hour})
+	if err != nil {
+		return "connect-failed " + err.Error()
+	}
+	if reader {
+		go func() {
+			for range tun.Inbound() {
+			}
+		}()
+	}
+	stop := make(chan struct{})
+	for s := 0; s < senders; s++ {
+		go func(s int) {
+			for k := 0; ; k++ {
+				select {
+				case <-stop:
+					return
+				default:
+				}
+				if tun.Send(payload(s*1000+k+1, false)) != nil {
+					return
+				}
+			}
+		}(s)
+	}
+	if traffic {
+		go func() {
+			defer func() { recover() }()
+			for k := 0; ; k++ {
+				select {
+				case <-stop:
+					return
+				case sock.inbound <- &knxnet.TunnelReq{Channel: 7, SeqNumber: uint8(k), Payload: payload(5000+k, true)}:
+				case <-time.After(200 * time.Microsecond):
+				}
+			}
+		}()
+	}
+	time.Sleep(3 * time.Millisecond)
+	begin := make(chan struct{})
+	back := make(chan struct{}, closers+1)
+	for c := 0; c < closers; c++ {
+		go func() {
+			<-begin
+			tun.Close()
+			back <- struct{}{}
+		}()
+	}
+	time.Sleep(time.Millisecond)
+	close(begin)
+	returned := 0
+	deadline := time.After(3 * time.Second)
+wait:
+	for returned < closers {
+		select {
+		case <-back:
+			returned++
+		case <-deadline:
+			break wait
+		}
+	}
+	close(stop)
+	inbound := "closed"
+	drain := time.After(time.Second)
+drained:
+	for {
+		select {
+		case _, ok := <-tun.Inbound():
+			if !ok {
+				break drained
+			}
+		case <-drain:
+			inbound = "open"
+			break drained
+		}
+	}
+	send := "blocked"
+	sres := make(chan error, 1)
+	go func() { sres <- tun.Send(payload(9999, false)) }()
+	select {
+	case err := <-sres:
+		if err != nil {
+			send = "err"
+		} else {
+			send = "ok"
+		}
+	case <-time.After(time.Second):
+	}
+	second := "stuck"
+	go func() { tun.Close(); back <- struct{}{} }()
+	select {
+	case <-back:
+		second = "ok"
+	case <-time.After(time.Second):
+	}
+	sock.mu.Lock()
+	d := sock.dreqs
+	sock.mu.Unlock()
+	return fmt.Sprintf("dreq=%d returned=%d/%d inbound=%s send=%s second=%s", d, returned, closers, inbound, send, second)
 }
